@@ -1,0 +1,169 @@
+//go:build verif
+
+// Machine-checked contracts for this package (comment-only; compiled only with
+// the build tag `verif`). Read by /verif/engine (govc); see /verif/DESIGN.md.
+package parser
+
+// ---- lexer (C10: no panic, termination; C11: positions) -------------------------
+//
+// Cursor invariant: start and pos are byte offsets into the source, start <= pos.
+//
+//@ pred lexinv(l) := l != nil && 0 <= l.start && l.start <= l.pos && l.pos <= len(l.source)
+//@ opaque colsok(ts) := forall i int :: 0 <= i && i < len(ts) ==> ts[i].Column >= 1
+//
+//@ func (*Lexer).isAtEnd
+//@   mode int
+//@   tags C10
+//@   requires [recv] l != nil
+//@   ensures [def] result <==> l.pos >= len(l.source)
+//@   pure
+//@   nopanic
+//
+//@ func (*Lexer).peek
+//@   mode int
+//@   tags C10
+//@   requires [inv] lexinv(l)
+//@   ensures [at-end] l.pos >= len(l.source) ==> result == 0
+//@   ensures [ascii] l.pos < len(l.source) && l.source[l.pos] < 128 ==> result == int32(l.source[l.pos])
+//@   ensures [non-ascii] l.pos < len(l.source) && l.source[l.pos] >= 128 ==> result >= 128
+//@   pure
+//@   nopanic
+//
+//@ func (*Lexer).peekNext
+//@   mode int
+//@   tags C10
+//@   requires [inv] lexinv(l)
+//@   ensures [at-end] l.pos + 1 >= len(l.source) ==> result == 0
+//@   pure
+//@   nopanic
+//
+//@ func (*Lexer).advance
+//@   mode int
+//@   tags C10
+//@   requires [inv] lexinv(l)
+//@   ensures [inv] lexinv(l)
+//@   ensures [progress] old(l.pos) < len(l.source) ==> l.pos > old(l.pos)
+//@   ensures [bounded] l.pos >= old(l.pos) && l.pos <= old(l.pos) + 4
+//@   ensures [ascii] old(l.pos) < len(l.source) && l.source[old(l.pos)] < 128 ==> l.pos == old(l.pos) + 1 && result == int32(l.source[old(l.pos)])
+//@   ensures [column] l.column == old(l.column) + 1
+//@   assigns l.pos, l.column
+//@   nopanic
+//
+//@ func (*Lexer).match
+//@   mode int
+//@   tags C10
+//@   requires [inv] lexinv(l)
+//@   ensures [inv] lexinv(l)
+//@   ensures [bounded] l.pos >= old(l.pos) && l.pos <= old(l.pos) + 4
+//@   ensures [no-match] !result ==> l.pos == old(l.pos) && l.column == old(l.column)
+//@   ensures [match] result ==> l.pos > old(l.pos) && l.column == old(l.column) + 1
+//@   assigns l.pos, l.column
+//@   nopanic
+//
+//@ func (*Lexer).addToken
+//@   mode int
+//@   tags C10 C11
+//@   requires [inv] lexinv(l)
+//@   ensures [inv] lexinv(l)
+//@   ensures [appended] len(l.tokens) == old(len(l.tokens)) + 1
+//@   ensures [kind] l.tokens[len(l.tokens)-1].Kind == kind
+//@   ensures [lexeme] len(l.tokens[len(l.tokens)-1].Lexeme) == l.pos - l.start
+//@   ensures [line] l.tokens[len(l.tokens)-1].Line == l.line
+//@   ensures [column] l.tokens[len(l.tokens)-1].Column == l.startColumn
+//@   ensures [prefix] forall i int :: 0 <= i && i < old(len(l.tokens)) ==> l.tokens[i] == old(l.tokens[i])
+//@   ensures [cols] old(colsok(l.tokens)) && l.startColumn >= 1 ==> colsok(l.tokens)
+//@   assigns l.tokens, HA_Token
+//@   reveal colsok
+//@   nopanic
+//
+//@ func (*Lexer).identifier
+//@   mode int
+//@   tags C10 C11
+//@   requires [inv] lexinv(l)
+//@   requires [cols] colsok(l.tokens) && l.startColumn >= 1
+//@   ensures [cols] colsok(l.tokens)
+//@   ensures [inv] lexinv(l)
+//@   ensures [monotone] l.pos >= old(l.pos) && l.start == old(l.start)
+//@   ensures [col] l.column >= old(l.column)
+//@   assigns l.pos, l.column, l.tokens, HA_Token
+//@   nopanic
+//@   terminates
+//@   loop 1 invariant [inv] lexinv(l) && l.pos >= old(l.pos) && l.start == old(l.start) && l.source == old(l.source) && l.column >= old(l.column)
+//@   loop 1 decreases len(l.source) - l.pos
+//
+//@ func (*Lexer).blockComment
+//@   mode int
+//@   tags C10 C11
+//@   requires [inv] lexinv(l)
+//@   requires [col] l.column >= 1
+//@   ensures [col] l.column >= 1
+//@   ensures [inv] lexinv(l)
+//@   ensures [monotone] l.pos >= old(l.pos) && l.start == old(l.start)
+//@   assigns l.pos, l.column, l.line
+//@   nopanic
+//@   terminates
+//@   loop 1 invariant [inv] lexinv(l) && l.pos >= old(l.pos) && l.start == old(l.start) && l.source == old(l.source)
+//@   loop 1 invariant [col] l.column >= 1
+//@   loop 1 decreases len(l.source) - l.pos
+//
+//@ func (*Lexer).number
+//@   mode int
+//@   tags C10 C11
+//@   requires [inv] lexinv(l)
+//@   requires [cols] colsok(l.tokens) && l.startColumn >= 1
+//@   ensures [cols] colsok(l.tokens)
+//@   requires [consumed] l.start < l.pos
+//@   ensures [inv] lexinv(l)
+//@   ensures [monotone] l.pos >= old(l.pos) && l.start == old(l.start)
+//@   ensures [col] l.column >= old(l.column)
+//@   assigns l.pos, l.column, l.tokens, HA_Token
+//@   nopanic
+//@   terminates
+//@   loop 1 invariant [inv] lexinv(l) && l.pos >= old(l.pos) && l.start == old(l.start) && l.source == old(l.source) && l.column >= old(l.column)
+//@   loop 1 decreases len(l.source) - l.pos
+//@   loop 2 invariant [inv] lexinv(l) && l.pos >= old(l.pos) && l.start == old(l.start) && l.source == old(l.source) && l.column >= old(l.column)
+//@   loop 2 decreases len(l.source) - l.pos
+//@   loop 3 invariant [inv] lexinv(l) && l.pos >= old(l.pos) && l.start == old(l.start) && l.source == old(l.source) && l.column >= old(l.column)
+//@   loop 3 decreases len(l.source) - l.pos
+//@   loop 4 invariant [inv] lexinv(l) && l.pos >= old(l.pos) && l.start == old(l.start) && l.source == old(l.source) && l.column >= old(l.column)
+//@   loop 4 decreases len(l.source) - l.pos
+//@   loop 5 invariant [inv] lexinv(l) && l.pos >= old(l.pos) && l.start == old(l.start) && l.source == old(l.source) && l.column >= old(l.column)
+//@   loop 5 decreases len(l.source) - l.pos
+//
+//@ func (*Lexer).scanToken
+//@   mode int
+//@   tags C10 C11
+//@   requires [inv] lexinv(l)
+//@   requires [fresh-token] l.start == l.pos && l.pos < len(l.source)
+//@   requires [cols] colsok(l.tokens) && l.startColumn >= 1 && l.column >= 1
+//@   ensures [cols] colsok(l.tokens)
+//@   ensures [col] l.column >= 1
+//@   ensures [inv] lexinv(l)
+//@   ensures [progress] l.pos > old(l.pos)
+//@   ensures [no-error] result == nil
+//@   ensures [start-column-kept] l.startColumn == old(l.startColumn)
+//@   assigns l.pos, l.column, l.line, l.tokens, HA_Token
+//@   nopanic
+//@   terminates
+//@   loop 1 invariant [inv] lexinv(l) && l.pos > old(l.pos) && l.start == old(l.start) && l.source == old(l.source)
+//@   loop 1 invariant [col] l.column >= 1
+//@   loop 1 decreases len(l.source) - l.pos
+//
+// A reported position must lie inside the source: every token's column is the
+// column (1-based, in characters) at which the token started, hence >= 1.
+//
+//@ func (*Lexer).Tokenize
+//@   mode int
+//@   tags C10 C11
+//@   at (*Lexer).scanToken assert [start-column] l.startColumn == l.column && l.start == l.pos
+//@   requires [inv] lexinv(l)
+//@   requires [cols] colsok(l.tokens) && l.column >= 1
+//@   ensures [columns-positive] forall i int :: 0 <= i && i < len(result0) ==> result0[i].Column >= 1
+//@   ensures [ok] result1 == nil
+//@   ensures [eof] len(result0) >= 1 && result0[len(result0)-1].Kind == TokenEOF
+//@   reveal colsok
+//@   nopanic
+//@   terminates
+//@   loop 1 invariant [inv] lexinv(l) && l.source == old(l.source)
+//@   loop 1 invariant [cols] colsok(l.tokens) && l.column >= 1
+//@   loop 1 decreases len(l.source) - l.pos
